@@ -1331,6 +1331,8 @@ def check(tier, seed):
         for sig, what in problems:
             short = {k: (t if len(t) < 400 else t[:200] + f' ...({len(t)} chars)... ' + t[-100:]) for k, t in texts.items() if t}
             all_problems.append((sig, what, {'texts': short}))
+    extra_problems, extra_cov = structured_forms(run, rng, tier, stats)
+    all_problems += extra_problems
     sweep_wall = time.time() - t0
 
     # ---- 4. correspondence of the generated predicates with the real value parsers (Coq evaluates)
@@ -1444,7 +1446,7 @@ def check(tier, seed):
         'encodings': stats['encodes'], 'field_comparisons': stats['compares'], 'real_decoder_skipped_as4_path_to_2_octet_peer': stats['decoder_d4'],
         'value_parser_crashes_after_guards': dict(crash_hist),
         'problem_kinds': {k: len(v) for k, v in by_class.items()},
-        'sweep_wall_s': round(sweep_wall, 1),
+        'sweep_wall_s': round(sweep_wall, 1), 'structured_forms': extra_cov,
         'exhaustive': False,
     })
     f0 = FIELD['med']
@@ -1457,3 +1459,277 @@ def check(tier, seed):
         _RIG.close()
         _RIG = None
     return run.finish(checker_cmd='make -C coq props/Prop_C18.vo && coqc -Q coq ExaV coq/props/Prop_C18.v (Print Assumptions)')
+
+
+# ------------------------------------------------------------------------------- structured forms (whole-attribute read back)
+# Appended after the first review: three seeded changes showed that one number per keyword is not enough -
+# the value must also survive in every POSITION the grammar offers (set vs sequence segments, either layout of
+# an extended community, every operator of a flow list).
+
+
+def aspath_cases(rng, tier):
+    """as-path texts mixing [ sequence ] and ( set ) segments, 4-octet ASNs only in a set / only in a sequence / in both.
+    -> [(text, expected [(wire type, [asn])], category)]   (AS_SET = 1, AS_SEQUENCE = 2)"""
+    small = [1, 100, 65001, 65002, 65535]
+    large = [65536, 4200000001, 4294967295]
+    out = []
+
+    def seg(kind, with_large, n):
+        asns = [rng.choice(small) for _ in range(n)]
+        if with_large:
+            asns[rng.randrange(n)] = rng.choice(large)
+            if n > 1 and rng.random() < 0.4:
+                asns[rng.randrange(n)] = rng.choice(large)
+        return kind, asns
+
+    shapes = [
+        ('set-only', [('set', True)]), ('seq-only', [('seq', True)]), ('seq+set:large-in-set', [('seq', False), ('set', True)]),
+        ('seq+set:large-in-seq', [('seq', True), ('set', False)]), ('seq+set:large-in-both', [('seq', True), ('set', True)]),
+        ('seq+set:none', [('seq', False), ('set', False)]), ('set+seq:large-in-set', [('set', True), ('seq', False)]),
+        ('seq+set+seq:large-in-set', [('seq', False), ('set', True), ('seq', False)]), ('seq+seq:large-in-second', [('seq', False), ('seq', True)]),
+        ('set+set:large-in-second', [('set', False), ('set', True)]),
+    ]
+    reps = 2 if tier == 'quick' else 12
+    for cat, shape in shapes:
+        for _ in range(reps):
+            segs = [seg(k, lg, rng.choice([1, 2, 3])) for k, lg in shape]
+            text = 'as-path ' + ' '.join(('[ %s ]' if k == 'seq' else '( %s )') % ' '.join(str(a) for a in asns) for k, asns in segs)
+            out.append((text, [(2 if k == 'seq' else 1, asns) for k, asns in segs], cat))
+    out.append(('as-path [ 65001 ] ( 4200000001 65002 )', [(2, [65001]), (1, [4200000001, 65002])], 'seq+set:large-in-set'))
+    out.append(('as-path ( 65002 4294967295 )', [(1, [65002, 4294967295])], 'set-only'))
+    return out
+
+
+def judge_aspath(text, expected, cat, problems, stats):
+    route_text = BASE4 + ' ' + text
+    for entry, t in (('conf', 'static { %s; }' % route_text), ('prt', route_text), ('api', 'peer * announce ' + route_text)):
+        kind, val = with_watchdog({'conf': run_conf, 'prt': run_prt, 'api': run_api}[entry], t)
+        stats['texts'] += 1
+        if kind != 'A':
+            what = val if isinstance(val, str) else str(val)
+            problems.append((f'refused-but-valid:as-path-segments:{cat}' if kind == 'R' else f'exception:{val.get("cls") if isinstance(val, dict) else "no-reply"}:as-path-segments',
+                             f'{entry}: {text!r} is a legal AS path (RFC 4271 segments, RFC 6793 AS numbers): {what.strip()[-160:]!r}', t))
+            continue
+        for sess in sessions():
+            try:
+                msgs = encode_decode(val[0], sess)
+            except Exception as e:
+                info = exc_info(e)
+                problems.append((f'accepted-but-cannot-encode:as-path-segments:{cat}',
+                                 f'{entry}: {text!r} accepted, then {info["cls"]} "{info["msg"]}" at {info["where"]} while encoding for {sess.key}', t))
+                break
+            stats['encodes'] += 1
+            upd = read_update(msgs[0]) if msgs else None
+            if upd is None:
+                problems.append((f'accepted-but-malformed-message:as-path-segments:{cat}', f'{entry}: {text!r}: no well framed UPDATE for {sess.key}', t))
+                break
+            stats['compares'] += 1
+            if sess.asn4:
+                got = as_segments(attr(upd, 2) or b'', 4)
+                ok = got == expected and attr(upd, 17) is None
+                shown = got
+            else:
+                got2 = as_segments(attr(upd, 2) or b'', 2)
+                want2 = [(t_, [a if a <= 65535 else 23456 for a in asns]) for t_, asns in expected]
+                has_large = any(a > 65535 for _, asns in expected for a in asns)
+                a4 = attr(upd, 17)
+                got4 = as_segments(a4, 4) if a4 is not None else None
+                ok = got2 == want2 and (got4 == expected if has_large else got4 is None)
+                shown = (got2, got4)
+            if not ok:
+                problems.append((f'accepted-but-wrapped:as-path-segments:{cat}',
+                                 f'{entry}: {text!r} is sent as {shown} for {sess.key} (segments written: {expected})', t))
+                break
+            try:
+                decode(msgs[0], sess)
+            except Exception as e:
+                info = exc_info(e)
+                problems.append((f'accepted-but-undecodable:as-path-segments:{cat}', f'{entry}: {text!r}: the real decoder raises {info["cls"]} "{info["msg"]}" ({sess.key})', t))
+                break
+
+
+def extcomm_cases():
+    """target: / origin: in every layout at the boundaries of BOTH fields.
+    RFC 4360 3.1: 2-octet AS (<= 65535) : 4-octet number; RFC 4360 3.2: IPv4 address : 2-octet number;
+    RFC 5668: 4-octet AS : 2-octet number.  -> [(text, valid, expected (kind, admin, number), sub type)]"""
+    out = []
+    admins = [0, 1, 65534, 65535, 65536, 65537, 4294967295, 4294967296]
+    numbers = [0, 1, 65535, 65536, 4294967295, 4294967296]
+    for name, sub in (('target', 2), ('origin', 3)):
+        for a in admins:
+            for n in numbers:
+                two = a <= 65535 and n <= 4294967295
+                four = a <= 4294967295 and n <= 65535
+                out.append((f'{name}:{a}:{n}', two or four, ('as', a, n), sub))
+        for n in (0, 1, 65535, 65536):
+            out.append((f'{name}:1.2.3.4:{n}', n <= 65535, ('ip', 0x01020304, n), sub))
+            out.append((f'{name}:255.255.255.255:{n}', n <= 65535, ('ip', 0xFFFFFFFF, n), sub))
+    return out
+
+
+def read_extcomm(raw):
+    """8 octets -> (kind, admin, number, sub type) for the three two-field layouts, else ('other', raw)"""
+    if len(raw) != 8:
+        return ('length', len(raw))
+    t, sub = raw[0] & 0x3F, raw[1]
+    if t == 0:
+        return ('as', be_int(raw[2:4]), be_int(raw[4:8]), sub)
+    if t == 1:
+        return ('ip', be_int(raw[2:6]), be_int(raw[6:8]), sub)
+    if t == 2:
+        return ('as', be_int(raw[2:6]), be_int(raw[6:8]), sub)
+    return ('other', raw.hex())
+
+
+def judge_extcomm(text, valid, want, sub, problems, stats):
+    route_text = f'{BASE4} extended-community [ {text} ]'
+    for entry, t in (('conf', 'static { %s; }' % route_text), ('prt', route_text), ('api', 'peer * announce ' + route_text)):
+        kind, val = with_watchdog({'conf': run_conf, 'prt': run_prt, 'api': run_api}[entry], t)
+        stats['texts'] += 1
+        name = text.split(':')[0]
+        if kind == 'R':
+            if valid:
+                problems.append((f'refused-but-valid:extended-community:{name}', f'{entry}: {text} fits an RFC 4360 / RFC 5668 layout but is refused: {val.strip()[-140:]!r}', t))
+            continue
+        if kind != 'A':
+            problems.append((f'exception:{val.get("cls") if isinstance(val, dict) else "no-reply"}:extended-community', f'{entry}: {text}: {val}', t))
+            continue
+        for sess in sessions()[::5]:
+            try:
+                msgs = encode_decode(val[0], sess)
+            except Exception as e:
+                info = exc_info(e)
+                problems.append((f'accepted-but-cannot-encode:extended-community:{name}', f'{entry}: {text} accepted, then {info["cls"]} "{info["msg"]}" for {sess.key}', t))
+                break
+            stats['encodes'] += 1
+            upd = read_update(msgs[0]) if msgs else None
+            raw = attr(upd, 16) if upd else None
+            stats['compares'] += 1
+            got = read_extcomm(raw) if raw is not None else None
+            # the octets must say what the text says: same administrator, same number, same sub type, a layout that holds
+            # both (a 4-octet AS written with type 0x01 - same octets as 0x02 - is the implementation's long-standing choice)
+            kind_w, a_w, n_w = want
+            ok = got is not None and got[0] != 'other' and got[0] != 'length' and got[1] == a_w and got[2] == n_w and got[3] == sub \
+                and (got[0] == 'as' or kind_w == 'ip' or a_w > 65535)
+            if not ok or not valid:
+                what = 'although no layout can hold it, and is ' if not valid else ''
+                problems.append((f'accepted-but-wrapped:extended-community:{name}', f'{entry}: {text} is accepted {what}sent as {got} ({raw.hex() if raw else None}) for {sess.key}', t))
+                break
+
+
+FLOW_OPS = {'=': 0x01, '>': 0x02, '<': 0x04, '>=': 0x03, '<=': 0x05, '!=': 0x06}
+
+
+def flow_list_cases(rng, tier):
+    """bracketed and bare operator lists mixing `&` groups and OR items.
+    -> [(component, match text, expected [(and bit, operator bits, value)])]"""
+    comps = [('port', 4, 65535), ('destination-port', 5, 65535), ('source-port', 6, 65535), ('packet-length', 10, 65535), ('protocol', 3, 255), ('dscp', 11, 63)]
+    out = []
+
+    def item(maxv):
+        op = rng.choice(list(FLOW_OPS))
+        return op, rng.choice([0, 1, 80, 255, 256, maxv, rng.randint(0, maxv)]) % (maxv + 1)
+
+    shapes = [[2, 1], [1, 2], [2, 2], [1, 1, 1], [2, 1, 1], [1, 2, 1], [3, 1], [1, 3], [2, 1, 2], [1], [2], [3]]
+    reps = 1 if tier == 'quick' else 6
+    for comp, ctype, maxv in comps:
+        for shape in shapes:
+            for _ in range(reps):
+                groups = [[item(maxv) for _ in range(n)] for n in shape]
+                words = ['&'.join(f'{op}{v}' for op, v in g) for g in groups]
+                expected = [(1 if i else 0, FLOW_OPS[op], v) for g in groups for i, (op, v) in enumerate(g)]
+                out.append((comp, ctype, f'{comp} [ {" ".join(words)} ]', expected))
+                if len(groups) == 1:
+                    out.append((comp, ctype, f'{comp} {words[0]}', expected))
+    out.append(('port', 4, 'port [ >=80&<=90 =100 ]', [(0, 3, 80), (1, 5, 90), (0, 1, 100)]))
+    return out
+
+
+def flow_operators(data, ctype):
+    """the (and bit, lt/gt/eq bits, value, eol, length code) of every operator of one component of a flow NLRI"""
+    off = 1
+    ln = data[0]
+    if ln >= 0xF0:
+        ln = (data[0] & 0x0F) << 8 | data[1]
+        off = 2
+    end = off + ln
+    while off < end:
+        t = data[off]
+        off += 1
+        if t in (1, 2):
+            off += 1 + (data[off] + 7) // 8
+            continue
+        ops = []
+        while True:
+            op = data[off]
+            n = 1 << ((op >> 4) & 3)
+            ops.append(((op >> 6) & 1, op & 0x07, be_int(data[off + 1 : off + 1 + n]), op >> 7, n))
+            off += 1 + n
+            if op & 0x80:
+                break
+        if t == ctype:
+            return ops
+    return None
+
+
+def judge_flow_list(comp, ctype, match, expected, problems, stats):
+    body = 'match { source 10.0.0.0/24; %s; } then { discard; }' % match
+    for entry, t in (('conf', 'flow { route f { %s } }' % body), ('api', 'peer * announce flow route { %s }' % body)):
+        kind, val = with_watchdog({'conf': run_conf, 'api': run_api}[entry], t)
+        stats['texts'] += 1
+        if kind == 'R':
+            problems.append((f'refused-but-valid:flow-operator-list:{comp}', f'{entry}: `{match}` is a legal RFC 8955 operator list but is refused: {val.strip()[-140:]!r}', t))
+            continue
+        if kind != 'A':
+            problems.append((f'exception:{val.get("cls") if isinstance(val, dict) else "no-reply"}:flow-operator-list', f'{entry}: `{match}`: {val}', t))
+            continue
+        for sess in sessions()[::5]:
+            try:
+                msgs = encode_decode(val[0], sess)
+            except Exception as e:
+                info = exc_info(e)
+                problems.append((f'accepted-but-cannot-encode:flow-operator-list:{comp}', f'{entry}: `{match}` accepted, then {info["cls"]} "{info["msg"]}" for {sess.key}', t))
+                break
+            stats['encodes'] += 1
+            upd = read_update(msgs[0]) if msgs else None
+            mp = mp_reach(upd) if upd else None
+            ops = flow_operators(mp[3], ctype) if mp else None
+            stats['compares'] += 1
+            good = ops is not None and len(ops) == len(expected)
+            if good:
+                for i, ((a, bits, v, eol, n), (ea, ebits, ev)) in enumerate(zip(ops, expected)):
+                    shortest = 1 if ev < 256 else 2 if ev < 65536 else 4
+                    good = good and a == ea and bits == ebits and v == ev and eol == (1 if i == len(ops) - 1 else 0) and n == shortest
+            if not good:
+                problems.append((f'accepted-but-wrapped:flow-operator-list:{comp}',
+                                 f'{entry}: `{match}` is sent with operators (and, lt/gt/eq, value, eol, octets) {ops} for {sess.key}; written: (and, lt/gt/eq, value) {expected}', t))
+                break
+
+
+def structured_forms(run, rng, tier, stats):
+    """-> list of (sig, what, case); adds its obligations to run"""
+    found = []
+    asp = aspath_cases(rng, tier)
+    probs = []
+    for text, expected, cat in asp:
+        judge_aspath(text, expected, cat, probs, stats)
+    run.obligation(f'property oracle: {len(asp)} as-path texts with set and sequence segments (4-octet AS numbers only in a set, only in a sequence, '
+                   'in both) are accepted, encode under all 16 session kinds and carry every segment as written (AS_TRANS + AS4_PATH towards 2-octet peers)',
+                   not probs, f'{len(probs)} failing; first: {probs[0][:2] if probs else ""}')
+    found += probs
+    ext = extcomm_cases()
+    probs = []
+    for text, valid, want, sub in ext:
+        judge_extcomm(text, valid, want, sub, probs, stats)
+    run.obligation(f'property oracle: {len(ext)} target:/origin: extended communities (administrator x number boundaries, as:number and ip:number layouts): '
+                   'accepted exactly when an RFC 4360 / RFC 5668 layout holds both fields, and the 8 octets sent say what the text says',
+                   not probs, f'{len(probs)} failing; first: {probs[0][:2] if probs else ""}')
+    found += probs
+    fl = flow_list_cases(rng, tier)
+    probs = []
+    for comp, ctype, match, expected in fl:
+        judge_flow_list(comp, ctype, match, expected, probs, stats)
+    run.obligation(f'property oracle: {len(fl)} flow operator lists mixing `&` groups and OR items: every operator byte sent (and bit, lt/gt/eq, end-of-list, '
+                   'value length) is the one written', not probs, f'{len(probs)} failing; first: {probs[0][:2] if probs else ""}')
+    found += probs
+    return [(sig, what, {'texts': {'text': t}}) for sig, what, t in found], {'as_path_forms': len(asp), 'extended_community_forms': len(ext), 'flow_operator_lists': len(fl)}
